@@ -76,6 +76,11 @@ pub fn execute(sc: &MuxScenario, skip: Option<&[bool]>, st: &mut Stats) -> MuxOu
     if failed_end {
         st.inc("probe.write_end_failed");
     }
+    if sc.cfg.timescale >= u32::MAX - 2
+        && sc.ops.iter().zip(run.results[1..].iter()).any(|(op, r)| matches!(op, Op::Write { s, .. } if s.duration >= u32::MAX - 1) && matches!(r, CallResult::Err(_)))
+    {
+        st.inc("probe.sample_refused_near_duration_overflow");
+    }
     // fat-chunk history: one track holds more than 4 MiB of Stamp samples (its chunk stays open
     // because their durations are far below a second) while other tracks are written too
     {
